@@ -436,7 +436,13 @@ func c11Compile(w *Worker, cases []*c11Case, name string) {
 				s.Rules = append([]gram.Rule(nil), s.Rules...)
 				s.Rules[ri].Action = fmt.Sprintf(" rec(%d) ", ri+1)
 			}
-			return dd.Source(variant, pkg)
+			// the user's own code has constants whose names BEGIN like token names, and mentions a token
+			// constant in a comment: the token constants must be emitted all the same
+			own := "\nconst T1_WIDTH = 4 // const T2 is declared by the generator, not here\n"
+			if variant == gen.TS {
+				own = "\nconst T1_WIDTH = 4; // const T2 is declared by the generator, not here\n"
+			}
+			return dd.Source(variant, pkg) + own
 		}
 		res := ygo.Build(mk(gen.Go, "m"), ygo.Options{Fuel: buildFuel})
 		if !res.OK() {
